@@ -64,7 +64,8 @@ def snapshot(dc, aspects=None):
         ds['units'] = {c.label: str(d.get_component(c).units or '') for c in d.main_components}
         ds['style'] = style_tuple(d.style)
         ds['uuid'] = d.uuid
-        ds['meta'] = tuple(sorted((str(k), repr(v)) for k, v in d.meta.items()))
+        # entries whose value has no saver are dropped from the session by design (documented filter in the Data saver): not compared
+        ds['meta'] = tuple(sorted((str(k), repr(v)) for k, v in d.meta.items() if type(v).__name__ != 'NoSaver'))
         # the coordinate frame: class, and which identifier stands for which axis (pixel and world lists are indexed by axis)
         ds['coords'] = (type(d.coords).__name__ if d.coords is not None else None, tuple(c.label for c in d.pixel_component_ids),
                         tuple(c.label for c in getattr(d, 'world_component_ids', [])),
